@@ -146,7 +146,11 @@ func checkC07(c *Ctx) {
 			why = "a return of GetCheckpoint does not hand back the packed-and-hashed encoding of this call"
 		}
 		for _, w := range gw {
-			why += sprintf("; %s %s the package-level variable %s at %s", fname(w.f), w.how, w.g.Name(), c.pos(w.in))
+			gn := "sync.Map"
+			if w.g != nil {
+				gn = w.g.Name()
+			}
+			why += sprintf("; %s %s the package-level variable %s at %s", fname(w.f), w.how, gn, c.pos(w.in))
 		}
 		r.Check(okRet && len(gw) == 0, "C07.pure", dg.goType, p.Pos(gf.Pos()), "every return is the pack helper's result for this transaction; no package-level state is written",
 			"the digest is not a pure function of the transaction: "+strings.TrimPrefix(why, "; "))
@@ -239,6 +243,12 @@ func checkC07(c *Ctx) {
 						}
 					}
 				}
+				if okG {
+					if lossy := lossyStep(p, v, l); lossy != "" {
+						r.Bad("C07.field-map", key, c.pos(pack), "the gravity id passes through "+lossy+" on its way into the digest: the contract holds its UTF-8 bytes, right-padded")
+						break
+					}
+				}
 				r.Check(okG, "C07.field-map", key, c.pos(pack), "position 0 is the gravity id parameter", "position 0 of the digest is not the gravity id parameter")
 			case "salt":
 				// checked by C07.salts
@@ -286,6 +296,11 @@ func checkC07(c *Ctx) {
 						if strings.HasPrefix(op, "binop:") {
 							okShape, detail = false, "arithmetic ("+op+") on the hashed value"
 						}
+					}
+				}
+				if okShape {
+					if lossy := lossyStep(p, v, l); lossy != "" {
+						okShape, detail = false, "the value passes through "+lossy+" on its way into the digest (the contract hashes the value as it is)"
 					}
 				}
 				r.Check(okF && has && okShape, "C07.field-map", key, c.pos(pack), sprintf("position %d <- %s", k, want),
@@ -694,3 +709,88 @@ var errNotString = &strErr{"not a string"}
 type strErr struct{ s string }
 
 func (e *strErr) Error() string { return e.s }
+
+// lossyStep names a step on the way from a hub field to a digest argument that does not keep the value: decoding
+// helpers that silently yield something else for part of the input space (Hex2Bytes / FromHex of a prefixed
+// string, sub-string slicing), narrowing integer conversions (a rune stored as a byte) and case folding.
+func lossyStep(p *ana.Prog, v ssa.Value, l *ana.Prov) string {
+	for _, op := range l.OpList() {
+		switch {
+		case strings.HasSuffix(op, "Hex2Bytes"), strings.HasSuffix(op, "FromHex"), strings.HasSuffix(op, "Hex2BytesFixed"):
+			return op
+		case strings.HasSuffix(op, "ToLower"), strings.HasSuffix(op, "ToUpper"), strings.HasSuffix(op, "TrimSpace"), strings.Contains(op, "TrimPrefix"), strings.Contains(op, "TrimLeft"):
+			return op
+		}
+	}
+	// narrowing conversions and string slicing anywhere in the functions that build the value
+	seen := map[ssa.Value]bool{}
+	var out string
+	var walk func(v ssa.Value, depth int)
+	walk = func(v ssa.Value, depth int) {
+		if v == nil || depth > 10 || seen[v] || out != "" {
+			return
+		}
+		seen[v] = true
+		switch x := v.(type) {
+		case *ssa.Convert:
+			from, ok1 := x.X.Type().Underlying().(*types.Basic)
+			to, ok2 := x.Type().Underlying().(*types.Basic)
+			if ok1 && ok2 && from.Info()&types.IsInteger != 0 && to.Info()&types.IsInteger != 0 && intBits(to) < intBits(from) {
+				out = "a conversion from " + from.Name() + " to " + to.Name()
+				return
+			}
+			walk(x.X, depth+1)
+		case *ssa.Slice:
+			if b, ok := x.X.Type().Underlying().(*types.Basic); ok && b.Info()&types.IsString != 0 && (x.Low != nil || x.High != nil) {
+				out = "a sub-string"
+				return
+			}
+			walk(x.X, depth+1)
+		case *ssa.Call:
+			for _, a := range x.Call.Args {
+				walk(a, depth+1)
+			}
+			if callee := x.Call.StaticCallee(); callee != nil && p.IsModule(callee) && callee.Blocks != nil && !p.L.IsGenerated(callee.Pos()) && depth < 4 {
+				ana.Instrs(callee, func(in ssa.Instruction) {
+					switch y := in.(type) {
+					case *ssa.Return:
+						for _, rv := range y.Results {
+							walk(rv, depth+1)
+						}
+					case *ssa.Store:
+						walk(y.Val, depth+1)
+					}
+				})
+			}
+		case *ssa.UnOp:
+			walk(x.X, depth+1)
+		case *ssa.ChangeType:
+			walk(x.X, depth+1)
+		case *ssa.MakeInterface:
+			walk(x.X, depth+1)
+		case *ssa.Phi:
+			for _, e := range x.Edges {
+				walk(e, depth+1)
+			}
+		case *ssa.Extract:
+			walk(x.Tuple, depth+1)
+		case *ssa.Alloc:
+			for _, ref := range *x.Referrers() {
+				if st, ok := ref.(*ssa.Store); ok && st.Addr == ssa.Value(x) {
+					walk(st.Val, depth+1)
+				}
+				if ia, ok := ref.(*ssa.IndexAddr); ok {
+					for _, r2 := range *ia.Referrers() {
+						if st, ok := r2.(*ssa.Store); ok && st.Addr == ssa.Value(ia) {
+							walk(st.Val, depth+1)
+						}
+					}
+				}
+			}
+		case *ssa.IndexAddr:
+			walk(x.X, depth+1)
+		}
+	}
+	walk(v, 0)
+	return out
+}
